@@ -102,4 +102,9 @@ def known_c12(prop, known):
         idl = [l for l in tr if l.startswith("id 7")]
         if idl and "delivered=1,5" in idl[0] and any(l.startswith("log") and "1:9" in l for l in tr):
             out.append("KNOWN-FINDING: property=C12 an event published while SubscribeWithReplay is running (here: by the handler during the replay) is persisted but never delivered to that subscription, not even after a restart")
+    if "C12-sqlite-subscription-store-rewrites-foreign-offsets" in ids:
+        (tr,) = corr.run_binary([HARNESS, "resume"], [["kind mem+sqlsub", "plan - -", "pub 1 1", "pub 1 2", "pub 1 3", "sub 7 1 -", "restart", "pub 1 4", "pub 1 5", "restart", "sub 7 1 -"]], 60, goenv())
+        idl = [l for l in tr if l.startswith("id 7")]
+        if idl and "saved=3 " in idl[0] and idl[0].endswith("delivered=1,2,3"):
+            out.append("KNOWN-FINDING: property=C12 events in a MemoryStore, positions in the SQLite store (WithSubscriptionStore): the saved offset comes back as \"3\" instead of \"00000000000000000003\" and the two events published while the subscriber was away are never delivered")
     return out
